@@ -2,11 +2,14 @@
 import lib
 
 ID = 'C17'
-GEN_FILES = ['K_gfx', 'K_gff', 'K_map', 'K_sfx', 'K_music']
+GEN_FILES = ['K_gfx', 'K_gff', 'K_map', 'K_sfx', 'K_music',
+             # source pins of the hand-modelled modules (gen/kernels_pins.py)
+             'T_pins_gfx', 'T_pins_map', 'T_pins_gff', 'T_pins_sfx', 'T_pins_music', 'T_pins_util', 'T_pins_game']
 COQ_PROPERTY = 'theories/Properties/C17.vo'
 COQ_EXTRA = ['theories/Generated/K_gfx_selftest.vo', 'theories/Generated/K_gff_selftest.vo',
              'theories/Generated/K_map_selftest.vo', 'theories/Generated/K_sfx_selftest.vo',
-             'theories/Generated/K_music_selftest.vo']
+             'theories/Generated/K_music_selftest.vo',
+             'theories/Proofs/GfxPins.vo', 'theories/Proofs/MapPins.vo', 'theories/Proofs/GffPins.vo', 'theories/Proofs/SfxPins.vo', 'theories/Proofs/MusicPins.vo', 'theories/Proofs/UtilPins.vo', 'theories/Proofs/GamePins.vo']
 MODEL = ('ExC17', ['c17_ops.ml', 'c17_main.ml'])
 MONITOR = ('MonC17', ['c17_ops.ml', 'c17_mon_main.ml'])
 SIZES = [8192, 4096, 256, 256, 4352]
